@@ -19,7 +19,7 @@ RULE = ("op sets: 2-3 threads x 1-3 operations from {safe/unsafe register, remov
         "non-trivial = the schedule contains at least one context switch inside an operation")
 ASSUMPTIONS = ["granularity is the source line (CPython may also switch between bytecodes of a line)",
                "for SqlStorage each storage call is atomic for the scheduler (a thread is never parked inside an open sqlite transaction)"]
-REQUIRED_REACH = ["socket_histories", "schedules_explored", "histories_linearizable", "concurrent_safe_registers", "concurrent_removes", "sql_schedules", "sql_stress_entries_read"]
+REQUIRED_REACH = ["socket_histories", "schedules_explored", "histories_linearizable", "concurrent_safe_registers", "concurrent_removes", "sql_schedules", "sql_stress_entries_read", "autoclean_histories"]
 SHARD_TIMEOUT = {"quick": 240, "thorough": 3000}
 NSNAME = "Pyro.NameServer"
 URIS = ["PYRO:o1@h:1", "PYRO:o2@h:2", "PYRO:o3@h:3"]
@@ -177,6 +177,87 @@ FOCUSED = [
     {"initial": (("a.x", URIS[0], frozenset(["m0"])), ("a.y", URIS[0], frozenset(["m0"]))), "threads": [[("listpm", ("a.",))], [("reg", ("a.x", URIS[1], False, ("m1",))), ("reg", ("a.y", URIS[1], False, ("m1",)))]]},
     {"initial": (("a.x", URIS[0], frozenset(["m0"])), ("a.y", URIS[0], frozenset(["m0"]))), "threads": [[("listrm", (r"a\..",))], [("setmeta", ("a.x", ("s1",))), ("remove", ("a.y",))]]},
 ]
+
+
+def autoclean_stress(P, rec, r, nhist):
+    """(d) the name server's own housekeeping thread (NS_AUTOCLEAN) is one more party operating on the map: while it prunes registrations whose
+    daemons cannot be reached, clients register, look up, re-tag and remove those very names. No client operation may fail with an internal
+    error, and a listing never shows an entry that no write stored (unique versions, as in the sql stress)."""
+    import threading
+    from vlib import yieldinj
+    N = P.nameserver
+    dead = "PYRO:o%d@127.0.0.1:1"       # nothing listens on port 1: the cleaner's probe is refused at once
+    names = ["a.x", "a.y", "a.z"]
+    saved = (N.AutoCleaner.override_autoclean_min, N.AutoCleaner.loop_delay, N.AutoCleaner.max_unreachable_time, P.config.NS_AUTOCLEAN)
+    N.AutoCleaner.override_autoclean_min, N.AutoCleaner.loop_delay, N.AutoCleaner.max_unreachable_time = True, 0.002, 0.0
+    P.config.NS_AUTOCLEAN = 0.001
+    try:
+        for h in range(nhist):
+            if rec.should_stop(6):
+                break
+            ns = N.NameServer(N.MemoryStorage())
+            cleaner = N.AutoCleaner(ns)
+            errs, bad, ops = [], [], [0]
+            vcount = [0]
+            vlock = threading.Lock()
+
+            def client(sd):
+                rr = gen.rng(sd, "ac")
+                try:
+                    for _ in range(80):
+                        n = rr.choice(names)
+                        k = rr.randrange(6)
+                        with vlock:
+                            vcount[0] += 1
+                            v = vcount[0]
+                            ops[0] += 1
+                        try:
+                            if k == 0:
+                                ns.register(n, dead % v, safe=False, metadata={"v%d" % v})
+                            elif k == 1:
+                                ns.remove(n)
+                            elif k == 2:
+                                ns.remove(prefix="a.")
+                            elif k == 3:
+                                u, m = ns.lookup(n, return_metadata=True)
+                                if set(m) != {"v" + str(u).split("@")[0][6:]}:
+                                    bad.append("lookup returned %s -> (%s, %r)" % (n, u, sorted(m)))
+                            elif k == 4:
+                                ns.register(n, dead % v, safe=True, metadata={"v%d" % v})
+                            else:
+                                for nn, (u, m) in ns.list(prefix="a.", return_metadata=True).items():
+                                    if set(m or ()) != {"v" + str(u).split("@")[0][6:]}:
+                                        bad.append("list returned %s -> (%s, %r)" % (nn, u, sorted(m or ())))
+                        except P.errors.NamingError:
+                            pass
+                except Exception as x:
+                    errs.append("%s: %r" % (type(x).__name__, x))
+            yieldinj.enable(("Pyro5/nameserver.py",), 0.2, r.getrandbits(30), max_sleep=0.001)
+            try:
+                cleaner.start()
+                ts = [threading.Thread(target=client, args=(r.getrandbits(30),), daemon=True) for _ in range(3)]
+                for t in ts:
+                    t.start()
+                for t in ts:
+                    t.join(60)
+            finally:
+                cleaner.stop = True
+                n_inj, _ = yieldinj.disable()
+                cleaner.join(10)
+            rec.count("injected_yields", n_inj)
+            rec.case(("autoclean", rec.seed, h, ops[0]), nontrivial=True, sample={"autoclean_history_ops": ops[0]} if h == 0 else None)
+            if any(t.is_alive() for t in ts) or cleaner.is_alive():
+                rec.inconc("autoclean stress history did not complete")
+                continue
+            if errs:
+                rec.violation("internal-error:autoclean", "a client operation failed with an internal error while the housekeeping thread was pruning: %s" % errs[0], None)
+                continue
+            if bad:
+                rec.violation("entry-never-existed:autoclean", bad[0] + ": no write ever stored that uri with that metadata", None)
+                continue
+            rec.count("autoclean_histories")
+    finally:
+        N.AutoCleaner.override_autoclean_min, N.AutoCleaner.loop_delay, N.AutoCleaner.max_unreachable_time, P.config.NS_AUTOCLEAN = saved
 
 
 def sql_stress(P, rec, r, nhist, workdir):
@@ -509,6 +590,7 @@ def run_shard(shard, rec):
     try:
         if shard["backend"] == "sqlstress":
             sql_stress(P, rec, r, shard["histories"], workdir)
+            autoclean_stress(P, rec, r, max(3, shard["histories"] // 2))
             return
         if shard["backend"] == "memory":
             rec.count("sql_schedules")
